@@ -9,6 +9,7 @@ import (
 func init() {
 	verifRegister("VerifC07_KQq", VerifC07_KQq)
 	verifRegister("VerifC07_EExpand", VerifC07_EExpand)
+	verifRegister("VerifC07_ELexical", VerifC07_ELexical)
 	verifRegister("VerifC07_KGensym", VerifC07_KGensym)
 }
 
@@ -198,6 +199,53 @@ func VerifC07_EExpand() {
 	}
 	cleanRuntime(envA, "user")
 	cleanRuntime(envB, "user")
+	vCover("end")
+}
+
+// the same law where the macro's name has DIFFERENT lexical and global meanings: a macrolet macro
+// with no global counterpart, a macrolet macro shadowing a global one, a global macro shadowed by an
+// flet function, a nested macrolet shadowing an outer one.  %s is the body evaluated in the scope.
+var c7Scopes = []string{
+	"(macrolet ((m (a b) (quasiquote (list 'lex (unquote a) (unquote b))))) %s)",
+	"(defmacro m (a b) (quasiquote (list 'glob (unquote a)))) (macrolet ((m (a b) (quasiquote (list 'lex (unquote b))))) %s)",
+	"(defmacro m (a b) (quasiquote (list 'glob (unquote a)))) (flet ((m (a b) (list 'fun a b))) %s)",
+	"(macrolet ((m (a b) (quasiquote (list 'outer (unquote a))))) (macrolet ((m (a b) (quasiquote (list 'inner (unquote b))))) %s))",
+	"(defmacro m (a b) (quasiquote (list 'glob (unquote a) (unquote b)))) (let ((m 5)) %s)",
+	"(defmacro m (a b) (quasiquote (list 'glob (unquote a)))) (labels ((m (a b) (list 'fun b a))) %s)",
+	"(macrolet ((w (x) (quasiquote (m (unquote x) 0))) (m (a b) (quasiquote (list 'lex (unquote a))))) (list %s (w 9)))",
+}
+
+func VerifC07_ELexical() {
+	si := vConcInt(vndChoice("scope", len(c7Scopes)))
+	a1 := c7Args[vndChoice("arg1", len(c7Args))]
+	a2 := c7Args[vndChoice("arg2", len(c7Args))]
+	k := vndInt("k")
+	call := "(m " + a1 + " " + a2 + ")"
+	run := func(body string) (*probeState, *lisp.LVal, *lisp.LEnv) {
+		ps := &probeState{}
+		env := newEnv(ps)
+		env.PutGlobal(lisp.Symbol("k"), lisp.Int(k))
+		return ps, env.LoadString("call", strings.Replace(c7Scopes[si], "%s", body, 1)), env
+	}
+	psA, rA, envA := run(call)
+	psB, rB, _ := run("(eval (macroexpand '" + call + "))")
+	psD, rD, _ := run("(eval (macroexpand-1 '" + call + "))")
+	vObserve("scope", si)
+	vObserve("call", call)
+	vObserve("direct", outcome(rA))
+	if si != 4 { // a variable named m makes (m ...) an ordinary error: the routes must still agree
+		vAssert(rA.Type != lisp.LError, "the call has a value: "+outcome(rA))
+	}
+	vAssert(outcome(rA) == outcome(rB), "evaluating the call is evaluating what macroexpand returns for it in that scope; expansion route gave "+outcome(rB))
+	vAssert(sameStrings(psA.effects, psB.effects), "same effects")
+	vAssert(outcome(rA) == outcome(rD), "these macros expand in one step: evaluating what macroexpand-1 returns gives the same value; got "+outcome(rD))
+	vAssert(sameStrings(psA.effects, psD.effects), "same effects through macroexpand-1")
+	psC, rC, _ := run("(let* ((f '" + call + ") (e1 (macroexpand-1 f)) (e2 (macroexpand-1 e1))) (list (string= (format-string \"{}\" e2) (format-string \"{}\" (macroexpand f))) (string= (format-string \"{}\" e1) (format-string \"{}\" (macroexpand f)))))")
+	vAssert(len(psC.effects) == 0, "expansion alone evaluates no argument")
+	if si != 6 {
+		vAssert(rC.Type != lisp.LError && rC.String() == "'(true true)", "macroexpand-1 iterated is macroexpand, with the scope's own meaning of the name: "+outcome(rC))
+	}
+	cleanRuntime(envA, "user")
 	vCover("end")
 }
 
